@@ -195,6 +195,28 @@ def real_requests(table, params):
             i += 1
             ops.append({"o": "alloc", "i": i, "s": lo})
         yield req(ops, "exhaust-smallest-count-class", api)
+        # a whole class free at once while its NEIGHBOURS hold live buffers in their lowest slots: whatever bookkeeping
+        # a class keeps per free slot must stay inside the class (every live buffer's pattern is re-read after every step)
+        by_count = sorted(range(len(table)), key=lambda c: (table[c][1], c))
+        for c in sorted(set(by_count[:2] + [by_count[len(by_count) // 2]])):
+            size, count = table[c]
+            ops, i, mine, others = [], 0, [], []
+            for nb in (c - 1, c + 1):
+                if 0 <= nb < len(table):
+                    for _ in range(4):
+                        i += 1
+                        others.append(i)
+                        ops.append({"o": "alloc", "i": i, "s": table[nb][0]})
+            for n in range(count):
+                i += 1
+                mine.append(i)
+                ops.append({"o": "alloc", "i": i, "s": size})
+            ops += [{"o": "dealloc", "i": j} for j in mine]                     # every slot of the class is free now
+            for n in range(count):
+                i += 1
+                ops.append({"o": "alloc", "i": i, "s": size})                   # and handed out again, each once
+            ops += [{"o": "dealloc", "i": j} for j in others]
+            yield req(ops, "whole-class-free-with-live-neighbours", api)
     # seeded random histories
     for n in range(params["random"]):
         ops, live, i = [], [], 0
